@@ -301,6 +301,12 @@ theorem step_ok (cfg : JCfg) (nd : JNode) (op : JOp) (h : nd.NodeInv) :
     have := JGroup.barrier_ok (nd.group cfg grp) src (goRound cfg.tol t) (group_keyInv cfg nd grp h)
     exact ⟨this.1, gupsert_all _ _ _ _ h this.2⟩
 
+/-- Dropping a group keeps every remaining group's bookkeeping invariant. -/
+theorem delete_nodeInv (nd : JNode) (grp : String) (h : nd.NodeInv) : (nd.delete grp).NodeInv := by
+  intro p hp
+  simp only [delete, List.mem_filter] at hp
+  exact h p hp.1
+
 theorem runOps_ok (cfg : JCfg) (ops : List JOp) (nd : JNode) (h : nd.NodeInv) :
     (nd.runOps cfg ops).2.2 = .ok ∧ (nd.runOps cfg ops).1.NodeInv := by
   induction ops generalizing nd with
